@@ -253,3 +253,24 @@ def two_docs_scenario(binary, nfuns=1500):
         return {'before': before, 'last_a': last(ua), 'alive': s.alive()}
     finally:
         s.close()
+
+
+def rename_scenario(binary, text, pos, new_name):
+    """didOpen(text); textDocument/rename at pos=(line, character) -> list of LSP TextEdits for that document (or None)"""
+    s = Session(binary, timeout=30.0)
+    try:
+        uri = s.uri('main.gleam')
+        s.notify('textDocument/didOpen', {'textDocument': {'uri': uri, 'languageId': 'gleam', 'version': 1, 'text': text}})
+        r = s.request('textDocument/rename', {'textDocument': {'uri': uri}, 'position': {'line': pos[0], 'character': pos[1]}, 'newName': new_name})
+        res = r.get('result') if isinstance(r, dict) else None
+        if not isinstance(res, dict):
+            return None
+        out = []
+        for u, eds in (res.get('changes') or {}).items():
+            if u == uri:
+                out += eds
+            else:
+                out += [dict(e, uri=u) for e in eds]
+        return out
+    finally:
+        s.close()
